@@ -109,7 +109,7 @@ var Properties = map[string]PropDef{
 	"C05": {
 		ID: "C05", AssertPrefix: "C05.", Bounds: ruleBounds, Assumptions: ruleAssumptions,
 		Outside:   "the run-time use count of channels (C04/C01); contexts larger than 2 entries",
-		Harnesses: ruleHarnesses(),
+		Harnesses: append(ruleHarnesses(), HarnessDef{Name: "zzpub.ZZMenuVerdicts", Depth: 400, Loop: 3000}),
 	},
 	"C09": {
 		ID: "C09", AssertPrefix: "C09.",
@@ -180,14 +180,14 @@ var Properties = map[string]PropDef{
 		Bounds:      runBounds,
 		Assumptions: runAssumptions,
 		Outside:     "PARTIAL: programs outside the menu, runs that do not terminate, the heartbeat timer, GOMAXPROCS (true parallelism is covered only through the interleaving semantics), the non-polarised mode (the property speaks about the polarised modes)",
-		Harnesses:   []HarnessDef{{Name: "process.ZZC04Control"}, runMenuHarness()},
+		Harnesses:   []HarnessDef{{Name: "process.ZZC04Control"}, runMenuHarness(), runMenuUnreducedHarness()},
 	},
 	"C03": {
 		ID: "C03", AssertPrefix: "C03.",
 		Bounds:      runBounds,
 		Assumptions: runAssumptions,
 		Outside:     "PARTIAL: programs outside the menu; monitor on; for programs with contraction the non-polarised mode is not compared (as the property states)",
-		Harnesses:   []HarnessDef{runMenuHarness()},
+		Harnesses:   []HarnessDef{runMenuHarness(), runMenuUnreducedHarness()},
 	},
 	"C19": {
 		ID: "C19", AssertPrefix: "C19.", ReinitGlobals: true,
@@ -204,13 +204,23 @@ var Properties = map[string]PropDef{
 	"C06": {
 		ID: "C06", AssertPrefix: "C06.", Bounds: ruleBounds, Assumptions: ruleAssumptions,
 		Outside:   "shift legality inside type definitions is decided under C10; judgements nested deeper than one rule follow inductively from the probes",
-		Harnesses: []HarnessDef{ruleHarnesses()[9], ruleHarnesses()[10], ruleHarnesses()[13], ruleHarnesses()[14], ruleHarnesses()[15]},
+		Harnesses: []HarnessDef{ruleHarnesses()[9], ruleHarnesses()[10], ruleHarnesses()[13], ruleHarnesses()[14], ruleHarnesses()[15], {Name: "zzpub.ZZMenuVerdicts", Depth: 400, Loop: 3000}},
 	},
 }
 
 // runMenuHarness: whole runs of the menu programs (harness/zzpub/run.go) under every schedule.
 func runMenuHarness() HarnessDef {
 	return HarnessDef{Name: "zzpub.ZZRunMenu", Quick: map[string]int{"MODES": 3}, Depth: 400, Loop: 3000, MaxPaths: 3000000, Sched: true}
+}
+
+// runMenuUnreducedHarness (thorough only): the light programs once more WITHOUT the sleep-set
+// reduction, as a cross-check of the reduction itself.
+func runMenuUnreducedHarness() HarnessDef {
+	h := runMenuHarness()
+	h.Quick = map[string]int{"MODES": 3, "LIGHT": 1, "NOSLEEP": 1, "LAST": 13}
+	h.ThoroughOnly = true
+	h.Note = "no partial-order reduction (every interleaving at channel operations), programs m01-m14 without m11"
+	return h
 }
 
 func runMenuMonitorHarness() HarnessDef {
